@@ -16,7 +16,8 @@ LIFECYCLE = {"data-after-complete", "second-stream-for-live-connection", "comple
 
 PLANS = {
     "quick": [dict(L=3, dirs="{0}", ops=4, seglen=3)],
-    "thorough": [dict(L=3, dirs="{0}", ops=5, seglen=3), dict(L=4, dirs="{0}", ops=4, seglen=4), dict(L=3, dirs="{0,1}", ops=4, seglen=3)],
+    # (the five-operation plan is replayed under one seeded configuration per scenario, the others under two)
+    "thorough": [dict(L=3, dirs="{0}", ops=5, seglen=3, variants=1), dict(L=4, dirs="{0}", ops=4, seglen=4), dict(L=3, dirs="{0,1}", ops=4, seglen=3)],
 }
 
 
@@ -48,7 +49,7 @@ def run_asm(ctx, drivers, wd, nrand, variants=None):
             open(sp, "w").write("\n".join(part) + "\n")
             for d in drivers:
                 tp = os.path.join(wd, "trace-%s-%d.ndjson" % (d, len(jobs)))
-                nv = (variants or {}).get(d, 2)
+                nv = min((variants or {}).get(d, 2), plan.get("variants", 2))
                 args = [bins[d], "-scenarios", sp, "-units", str(plan["L"]), "-trace", tp, "-seed", str(ctx.seed), "-variants", str(nv)]
                 if first:
                     args += ["-rand", str(nrand)]
@@ -74,7 +75,7 @@ def run_asm(ctx, drivers, wd, nrand, variants=None):
         os.remove(tp)
         return st, v, out, sample
 
-    with ThreadPoolExecutor(max_workers=4) as ex:
+    with ThreadPoolExecutor(max_workers=4 if ctx.tier == "quick" else 6) as ex:
         for st, v, out, sample in ex.map(work, jobs):
             stats["scenarios"] += st["scenarios"]
             stats["events"] += st["events"]
